@@ -16,6 +16,7 @@ type pushPaths struct {
 	noBroadcast           string // position of a return reached after a slot store without Broadcast
 	badFalse, badTrue     string
 	unknownRet            string
+	splitSection          string // a slot stored in another critical section than the one that found it free
 }
 
 // c16PushPaths walks every path of Push, with the unexported methods of the ring walked in place
@@ -28,9 +29,12 @@ func c16PushPaths(p *core.Prog, push *ssa.Function) pushPaths {
 	var out pushPaths
 	type st struct {
 		held        bool
+		section     int // number of the critical section the path is in (counts Lock calls)
+		freeIn      int // the critical section in which the slot at writeIndex was found free (0: never)
 		occ, stored bool
 		bcast       bool
 		loadHeld    map[ssa.Value]bool
+		loadSection map[ssa.Value]int
 		conds       map[ssa.Value]bool
 	}
 	cp := func(s st) st {
@@ -42,6 +46,10 @@ func c16PushPaths(p *core.Prog, push *ssa.Function) pushPaths {
 		o.conds = make(map[ssa.Value]bool, len(s.conds)+1)
 		for k, v := range s.conds {
 			o.conds[k] = v
+		}
+		o.loadSection = make(map[ssa.Value]int, len(s.loadSection)+1)
+		for k, v := range s.loadSection {
+			o.loadSection[k] = v
 		}
 		return o
 	}
@@ -57,6 +65,7 @@ func c16PushPaths(p *core.Prog, push *ssa.Function) pushPaths {
 			switch {
 			case core.IsCallTo(in, "sync.Mutex.Lock") || core.IsCallTo(in, "sync.RWMutex.Lock"):
 				s.held = true
+				s.section++
 			case core.IsCallTo(in, "sync.Mutex.Unlock") || core.IsCallTo(in, "sync.RWMutex.Unlock"):
 				s.held = false
 			case core.IsCallTo(in, "sync.Cond.Broadcast"):
@@ -68,10 +77,16 @@ func c16PushPaths(p *core.Prog, push *ssa.Function) pushPaths {
 			if ia, ok := x.X.(*ssa.IndexAddr); ok && x.Op == token.MUL && isBuf(ia.X) {
 				s = cp(s)
 				s.loadHeld[x] = s.held && strings.HasSuffix(core.PathOf(ia.Index), ".writeIndex")
+				if s.loadHeld[x] {
+					s.loadSection[x] = s.section
+				}
 			}
 		case *ssa.Store:
 			if ia, ok := x.Addr.(*ssa.IndexAddr); ok && isBuf(ia.X) && !isNilConst(x.Val) {
 				s.stored, s.bcast = true, false
+				if (!s.held || s.freeIn != s.section) && out.splitSection == "" {
+					out.splitSection = p.Pos(x.Pos())
+				}
 			}
 		}
 		return s
@@ -93,11 +108,14 @@ func c16PushPaths(p *core.Prog, push *ssa.Function) pushPaths {
 				if occupied && underLock {
 					s.occ = true
 				}
+				if !occupied && underLock {
+					s.freeIn = s.loadSection[slot]
+				}
 			}
 		}
 		return s, true
 	}
-	ex.run(push, st{loadHeld: map[ssa.Value]bool{}, conds: map[ssa.Value]bool{}}, func(a any, res []ssa.Value) {
+	ex.run(push, st{loadHeld: map[ssa.Value]bool{}, loadSection: map[ssa.Value]int{}, conds: map[ssa.Value]bool{}}, func(a any, res []ssa.Value) {
 		s := a.(st)
 		pos := p.Pos(push.Pos())
 		if len(res) != 1 {
